@@ -117,6 +117,11 @@ Z = [
     ("q_values_cols", ["select {i:column1}, {i:column2} from values (1, 'a'), (2, 'b') order by 1"], "o"),
     ("q_group", ["select {i:age}, count(*) as {i:cnt} from {i:people} group by {i:age} order by 1 nulls last"], "o"),
     ("q_quoted", ["select {q:Col}, {q:lower} from {q:Mixed} order by 1"], "o"),
+    # a CTE defined with a quoted upper-case name and referred to without quotes (and the other way round); qualified tables only
+    ("q_cte_quoted_def", ["with {q:BIG} as (select id from db1.s1.people) select count(*) as n from {i:big}"], "o"),
+    ("q_cte_quoted_ref", ["with {i:big} as (select id from db1.s1.people) select count(*) as n from {q:BIG} b join db1.s1.orders o on o.id = b.id"], "o"),
+    # quoted names that are upper case but still need their quotes (space, dot, dash, parenthesis)
+    ("q_quoted_upper_special", ["select id as {q:ORDER ID}, name as {q:A.B}, age as {q:UNIT-PRICE}, 1 as {q:COUNT(*)} from people order by 1"], "o"),
     ("q_alias_mix", ["select {i:id} as {q:MyId}, {i:name} as {i:alias1} from {i:people} order by 1"], "o"),
     ("q_fq", ["select * from {i:db1}.{i:s2}.{i:people} order by 1"], "o"),
     ("q_schema_q", ["select * from {i:s2}.{i:people} order by 1"], "o"),
@@ -167,6 +172,8 @@ Z = [
     # ---- DDL
     ("ddl_create_table", ["create table {i:newt} ({i:a} int, {i:b} varchar(10))"], "m"),
     ("ddl_create_table_q", ["create table {q:NewQ} ({q:a} int)"], "m"),
+    ("ddl_create_table_q_dotted", ["create table {q:S2.DOTTED} ({q:ORDER ID} int, {q:X.Y} varchar(5))", "insert into {q:S2.DOTTED} ({q:ORDER ID}) values (1)",
+                                   "select {q:ORDER ID} from {q:S2.DOTTED}"], "m"),
     ("ddl_create_table_types", ["create table {i:typed} ({i:a} number(12,3), {i:b} float, {i:c} boolean, {i:d} date, {i:e} timestamp_ntz, {i:f} variant, {i:g} binary, {i:h} time, {i:i} timestamp_tz, {i:j} string, {i:k} text, {i:l} bigint, {i:m} array, {i:n} object)"], "m"),
     ("ddl_ctas", ["create or replace table {i:people2} as select * from {i:people}"], "m"),
     ("ddl_clone", ["create table {i:clone1} clone {i:people}"], "m"),
